@@ -350,7 +350,7 @@ def classify_reader(P, f):
         if n == "serde_bare::from_slice":
             ty = _norm_ty(g[0])
             kinds.add(("BareTagged", ty) if ty.startswith("(") else ("Bare", ty))
-        elif n == "GroupEncoding::from_bytes":
+        elif n in ("GroupEncoding::from_bytes", "GroupEncoding::from_bytes_unchecked"):
             kinds.add(("PointCompressed",))
         elif n in ("helpers::scalar_from_be_bytes", "SecretKey<C>::from_be_bytes"):
             kinds.add(("ScalarBE",))
